@@ -119,6 +119,9 @@ def opsC15 : Handler := fun st fields =>
   -- the Boolean checks the theorems are about
   | ["c15.check", "relations"] => some (st, s!"ok\t{boolStr relationsOk}")
   | ["c15.check", "numrelations"] => some (st, s!"ok\t{boolStr numRelationsOk}")
+  | ["c15.check", "constdoubles"] => some (st, s!"ok\t{boolStr constCellsMatchDoubles}")
+  | ["c15.check", "unitdoubles"] => some (st, s!"ok\t{boolStr unitCellsMatchDoubles}")
+  | ["c15.check", "unsuffixed"] => some (st, s!"ok\t{boolStr unitSymbolsUnsuffixed}")
   | ["c15.check", "top"] => some (st, s!"ok\t{boolStr (bitwiseEqual pcRows topRows)}")
   | ["c15.check", "unitconst", excl] =>
     some (st, s!"ok\t{boolStr (unitAndConstantAgree (if excl == "1" then Ref.C15.exclUnitVsConstant else []))}")
